@@ -38,6 +38,7 @@ impl OutputFormat for TundraDraw {
         let mut result = vec![TUNDRA_VER]; // version
         result.extend(TUNDRA_HEADER);
         let mut attr = TextAttribute::from_u8(0, buf.ice_mode);
+        let mut first_cell = true;
         let mut skip_pos = None;
         let mut colors = HashSet::new();
 
@@ -82,29 +83,25 @@ impl OutputFormat for TundraDraw {
                     return Err(SavingError::Only8BitCharactersSupported.into());
                 }
 
-                if (1..=6).contains(&ch) {
-                    // fake color change to represent control characters
-                    result.push(TUNDRA_COLOR_FOREGROUND);
-                    result.push(ch as u8);
-
-                    let rgb = buf.palette.get_rgb(attr.get_foreground());
-                    result.push(0);
-                    result.push(rgb.0);
-                    result.push(rgb.1);
-                    result.push(rgb.2);
-                    continue;
-                }
-
                 let mut cmd = 0;
-                let write_foreground = buf.palette.get_color(attr.get_foreground()).get_rgb() != buf.palette.get_color(cur_attr.get_foreground()).get_rgb()
-                    || attr.is_bold() != cur_attr.is_bold();
+                // the reader starts with black on black: the first cell has to be compared with that, not with palette entry 0
+                let (last_fg, last_bg) = if first_cell {
+                    ((0, 0, 0), (0, 0, 0))
+                } else {
+                    (buf.palette.get_color(attr.get_foreground()).get_rgb(), buf.palette.get_color(attr.get_background()).get_rgb())
+                };
+                // characters 1..=6 are command bytes: they can only be written as part of a colour record
+                let write_foreground = last_fg != buf.palette.get_color(cur_attr.get_foreground()).get_rgb()
+                    || attr.is_bold() != cur_attr.is_bold()
+                    || (1..=6).contains(&ch);
                 if write_foreground {
                     cmd |= TUNDRA_COLOR_FOREGROUND;
                 }
-                let write_background = buf.palette.get_color(attr.get_background()).get_rgb() != buf.palette.get_color(cur_attr.get_background()).get_rgb();
+                let write_background = last_bg != buf.palette.get_color(cur_attr.get_background()).get_rgb();
                 if write_background {
                     cmd |= TUNDRA_COLOR_BACKGROUND;
                 }
+                first_cell = false;
 
                 if cmd != 0 {
                     result.push(cmd);
